@@ -413,6 +413,12 @@ class _Expr(SymEval):
                 if f.attr == "empty":
                     return np.full(args[0], np.nan) if dt in (float, np.float64, np.float32, "float") else np.zeros(args[0], dtype=dt if not isinstance(dt, str) else {"int": int, "float": float}.get(dt, float))
                 return getattr(np, f.attr)(args[0], dtype=dt if not isinstance(dt, str) else {"int": int, "float": float}.get(dt, float))
+            if f.attr == "ndindex" and args and not kw:
+                dims = args[0] if len(args) == 1 and isinstance(args[0], (tuple, list, np.ndarray)) else args
+                try:
+                    return [tuple(int(i) for i in idx) for idx in np.ndindex(*[int(d) for d in dims])]
+                except (TypeError, ValueError):
+                    raise NotSymbolic("ndindex over a symbolic shape") from None
             if f.attr == "nditer" and len(args) == 1 and isinstance(args[0], np.ndarray) and not kw:
                 # element by element in memory order (the arrays of the evaluator are real numpy arrays)
                 if args[0].dtype == object:
